@@ -202,7 +202,7 @@ class CFG:
                         out.add(n.id)
                 elif isinstance(n, ast.Attribute) and isinstance(n.ctx, ast.Load):
                     c = attr_chain(n)
-                    if c:
+                    if c and c.split(".")[0] not in bound:
                         out.add(c)
                         # prefixes too (self.optimiser_ for self.optimiser_.learning_rate)
                         parts = c.split(".")
@@ -316,9 +316,12 @@ class CFG:
         self._params = params
         return IN
 
-    def definitely_assigned(self):
-        """node -> set of names assigned on every path from ENTRY to the entry of node (params included)."""
-        if hasattr(self, "_da"):
+    def definitely_assigned(self, at_least_once=()):
+        """node -> set of names assigned on every path from ENTRY to the entry of node (params included).
+        at_least_once: loop headers proven to run their body at least once (their exit edge then carries what one
+        full iteration assigns)."""
+        at_least_once = set(at_least_once)
+        if hasattr(self, "_da") and not at_least_once:
             return self._da
         self.reaching()
         universe = set(self._params)
@@ -329,9 +332,18 @@ class CFG:
         IN = {n: set(universe) for n in self.all}
         IN[ENTRY] = set()
 
+        inside = {}
+        for h in at_least_once:
+            inside[h] = {x for x in ast.walk(h) if isinstance(x, ast.stmt) and x is not h}
+
         def out(n, label):
             if n == ENTRY:
                 return set(self._params)
+            if n in at_least_once and label is False:
+                backs = [(p, lab) for p, lab in self.pred[n] if p in inside[n]]
+                if backs:
+                    return set.intersection(*(out(p, lab) for p, lab in backs)) | IN[n] | \
+                        (dcache.get(n, set()) if isinstance(n, ast.For) else set())
             if isinstance(n, ast.For) and label is False:
                 return IN[n]          # zero iterations: the target stays unbound
             return IN[n] | dcache.get(n, set())
@@ -347,7 +359,8 @@ class CFG:
                 if new != IN[n]:
                     IN[n] = new
                     changed = True
-        self._da = IN
+        if not at_least_once:
+            self._da = IN
         return IN
 
     def maybe_unbound(self, node, var):
